@@ -109,6 +109,10 @@ def apply_unified(prog: Program, patch_text: str) -> Optional[Dict[str, str]]:
     for rel, hunks in files.items():
         mod = [x for x in prog.modules.values() if x.rel == rel]
         if not mod:
+            # a new file: every hunk line is an addition
+            if all(l[:1] == '+' for h in hunks for l in h[1:]):
+                out[rel] = '\n'.join(l[1:] for h in hunks for l in h[1:]) + '\n'
+                continue
             return None
         lines = mod[0].source.split('\n')
         offset = 0
